@@ -810,6 +810,7 @@ where
 
                 // Update inverted index
                 for (token, freq) in token_freqs {
+                    anda_db_utils::verif_point!("bm25.insert.before_token");
                     match self.postings.entry(token.clone()) {
                         dashmap::Entry::Occupied(mut entry) => {
                             let val = (id, freq);
@@ -841,6 +842,8 @@ where
             }
         }
 
+        anda_db_utils::verif_point!("bm25.insert.after_postings");
+
         // Phase 2: Update bucket states
         // tokens_to_migrate: (old_bucket_id, token, size)
         let mut tokens_to_migrate: Vec<(u32, String, usize)> = Vec::new();
@@ -868,6 +871,8 @@ where
                 bucket.doc_ids.insert(id);
             }
         }
+
+        anda_db_utils::verif_point!("bm25.insert.after_buckets");
 
         // Phase 3: Create new buckets if needed
         if !tokens_to_migrate.is_empty() {
@@ -967,6 +972,8 @@ where
                 .fetch_sub(removed_tokens as u64, Ordering::Relaxed);
         }
 
+        anda_db_utils::verif_point!("bm25.remove.after_doc_tokens");
+
         // Tokenize the document
         let token_freqs = {
             let mut tokenizer = self.tokenizer.clone();
@@ -1004,6 +1011,8 @@ where
             }
         }
 
+        anda_db_utils::verif_point!("bm25.remove.after_postings");
+
         // Drop empty postings atomically: a concurrent insert may have appended
         // a new entry after the guard above was released, in which case the
         // posting must survive. `remove_if` re-checks under the shard lock.
@@ -1018,6 +1027,8 @@ where
                 removed_postings.insert(token);
             }
         }
+
+        anda_db_utils::verif_point!("bm25.remove.after_remove_if");
 
         for (bucket_id, val) in buckets_to_update {
             if let Some(mut b) = self.buckets.get_mut(&bucket_id) {
@@ -1044,6 +1055,8 @@ where
                 b.doc_ids.remove(&id);
             }
         }
+
+        anda_db_utils::verif_point!("bm25.remove.after_buckets");
 
         // Other buckets may still reference this document in their serialized
         // doc_tokens (e.g. stale postings left by a remove() with non-original
@@ -1152,6 +1165,8 @@ where
                 .fetch_sub(removed_tokens, Ordering::Relaxed);
         }
 
+        anda_db_utils::verif_point!("bm25.purge.after_doc_tokens");
+
         // Phase 2: sweep every posting list once, collecting bucket updates
         // instead of applying them, so no `postings` shard guard is held while
         // the `buckets` map is touched.
@@ -1187,6 +1202,8 @@ where
             *bucket_size_decrease.entry(bucket_id).or_default() += size_decrease;
         }
 
+        anda_db_utils::verif_point!("bm25.purge.after_sweep");
+
         // Phase 3: drop the emptied posting lists atomically. A concurrent
         // insert may have appended an entry after the sweep released the shard
         // guard, in which case the posting must survive; `remove_if` re-checks
@@ -1203,6 +1220,8 @@ where
             }
         }
 
+        anda_db_utils::verif_point!("bm25.purge.after_remove_if");
+
         // Phase 4: resize and dirty every bucket that owned an affected token.
         let mut purged_postings = !bucket_size_decrease.is_empty();
         for (bucket_id, size_decrease) in bucket_size_decrease {
@@ -1211,6 +1230,8 @@ where
                 bucket.size = bucket.size.saturating_sub(size_decrease);
             }
         }
+
+        anda_db_utils::verif_point!("bm25.purge.after_resize");
 
         // Phase 5: unlist the tokens whose posting is genuinely gone.
         // `removed_postings` is a snapshot: a concurrent insert may have
@@ -1856,7 +1877,9 @@ where
         // Exclusive: no mutation may observe — or add to — the half-rebuilt
         // bucket map. Every mutator takes the shared side of this gate before
         // touching any other lock, so the ordering is uniform and deadlock-free.
+        anda_db_utils::verif_point!("bm25.compact.before_gate");
         let _mutation_guard = self.mutation_gate.write();
+        anda_db_utils::verif_point!("bm25.compact.in_gate");
 
         let old_count = self.buckets.len();
         if old_count <= 1 {
@@ -2036,6 +2059,47 @@ where
         if let Some(mut b) = self.buckets.get_mut(&bucket_id) {
             b.saved_version = b.saved_version.max(snapshot_version);
         }
+    }
+
+    /// Verification hook: checks, under the exclusive mutation gate, that the
+    /// global token counter equals the sum of the per-document lengths, that
+    /// no posting list is empty, and that every posting is listed by the
+    /// bucket it names (the bucket whose serialization persists it).
+    #[cfg(feature = "verif")]
+    pub fn verif_check_invariants(&self) -> Result<(), String> {
+        let _mutation_guard = self.mutation_gate.write();
+        let sum: u64 = self.doc_tokens.iter().map(|e| *e.value() as u64).sum();
+        let total = self.total_tokens.load(Ordering::Relaxed);
+        if sum != total {
+            return Err(format!(
+                "total_tokens = {total} but sum(doc_tokens) = {sum} over {} documents",
+                self.doc_tokens.len()
+            ));
+        }
+        for entry in self.postings.iter() {
+            let token = entry.key();
+            let posting = entry.value();
+            if posting.1.is_empty() {
+                return Err(format!("empty posting kept for token {token:?}"));
+            }
+            match self.buckets.get(&posting.0) {
+                None => {
+                    return Err(format!(
+                        "posting {token:?} names bucket {} which does not exist",
+                        posting.0
+                    ));
+                }
+                Some(bucket) => {
+                    if !bucket.tokens.contains(token) {
+                        return Err(format!(
+                            "posting {token:?} names bucket {} which does not list it",
+                            posting.0
+                        ));
+                    }
+                }
+            }
+        }
+        Ok(())
     }
 
     /// Gets the number of tokens for a document by its ID
